@@ -482,6 +482,31 @@ func runC05(c *Ctx) {
 				r.Fail("R6", fname(f)+":store-global-"+g.Name(), c.pos(st), "the read path writes package-level state: framing state can leak from one message (or connection) to the next")
 			}
 		})
+		flow.Instrs(f, func(in ssa.Instruction) {
+			mu, ok := in.(*ssa.MapUpdate)
+			if !ok {
+				return
+			}
+			root := mu.Map
+			for i := 0; i < 8; i++ {
+				switch x := root.(type) {
+				case *ssa.FieldAddr:
+					root = x.X
+					continue
+				case *ssa.Field:
+					root = x.X
+					continue
+				case *ssa.UnOp:
+					root = x.X
+					continue
+				}
+				break
+			}
+			if g, ok := root.(*ssa.Global); ok {
+				nStores++
+				r.Fail("R6", fname(f)+":update-global-map-"+g.Name(), c.pos(mu), "the read path updates a package-level map: what one message (or connection) left there shapes how the next is read")
+			}
+		})
 	}
 	if nStores == 0 {
 		r.Ok("R6", "ReadPath:no-global-stores", "-", fmt.Sprintf("%d read-path functions store to no package-level variable", len(rp)))
